@@ -140,6 +140,23 @@ def run(ctx):
     if unknown:
         ctx.drift.append("labels reached that neither the model nor the label inventory knows: %s" % ",".join(unknown))
 
+    # Layout-dependent observations and "the index lists what was acknowledged" are not in the statement: drift
+    notlisted, tmpblk, nofile = [], [], []
+    for t in traces:
+        acked = any(e["ev"] == "outcome" and e["kind"] == "reply" and 200 <= e["st"] < 300 for e in t)
+        for e in t:
+            if e["ev"] == "index" and acked and "complete" not in e["entries"]:
+                notlisted.append(t[0]["scn"])
+            if e["ev"] == "dirscan" and e.get("tmpblk"):
+                tmpblk.append(t[0]["scn"])
+            if e["ev"] == "dirscan" and acked and e.get("blk") != "complete":
+                nofile.append(t[0]["scn"])
+    for what, l in (("acknowledged block not listed by the index", notlisted),
+                    ("a leftover file in the block directory has a block-like name", tmpblk),
+                    ("acknowledged but no complete file at <root>/<hash[:3]>/<hash>", nofile)):
+        if l:
+            ctx.drift.append("beyond the statement: %s in %d scenarios (first scn=%s)" % (what, len(l), l[0]))
+
     # JUDGE
     ctx.judge(SD, "KeepstorePutTrace", "Judge_C02.cfg", events, scenario_of=by_id)
 
